@@ -77,6 +77,9 @@ pub const VALID_EXPRS: &[&str] = &[
     // 57: primes grouped in their own mrow; a mixed-number look-alike followed by a group
     "<math><mrow><mi>f</mi><mrow><mo>'</mo><mo>'</mo></mrow><mo>=</mo><mn>2</mn></mrow></math>",
     "<math><mn>3</mn><mn>1</mn><mo>/</mo><mrow><mi>a</mi><mo>+</mo><mi>b</mi></mrow></math>",
+    // 59: chemical bonds
+    "<math><mrow><mi>H</mi><mo>&#x2212;</mo><mi>O</mi><mi>H</mi></mrow></math>",
+    "<math><mi>C</mi><msub><mi>H</mi><mn>2</mn></msub><mo>=</mo><mi>C</mi><msub><mi>H</mi><mn>2</mn></msub><mo>+</mo><mi>H</mi><mo>:</mo><mi>Cl</mi></math>",
 ];
 
 /// Index of an expression with a character that only the *full* Unicode tables contain
